@@ -145,3 +145,37 @@ Theorem C07_validity_checked_first :
   check_resize_validity c auto t o n = inr St_ok.
 Proof. exact crv_cases. Qed.
 Print Assumptions C07_validity_checked_first.
+
+(* ---- allocation failure inside a resize leaves the table untouched, as an order-of-effects argument about the effect sequences read off the source on every run (gen/EffectOrder.v, Effects.v): no failing opportunity follows the first publication ---- *)
+From LC Require Import gen.EffectOrder Effects.
+Theorem C07_safe_order_is_failure_atomic :
+  forall effs : list effect,
+  safe_order effs = true -> forall (k : nat) (b : bool), run effs k false = Some b -> b = false.
+Proof. exact safe_order_failure_atomic. Qed.
+Print Assumptions C07_safe_order_is_failure_atomic.
+
+Theorem C07_doubling_order_is_safe :
+  safe_order fast_double_effects = true.
+Proof. exact fast_double_order_safe. Qed.
+Print Assumptions C07_doubling_order_is_safe.
+
+Theorem C07_doubling_failure_publishes_nothing :
+  forall (k : nat) (b : bool), run fast_double_effects k false = Some b -> b = false.
+Proof. exact fast_double_failure_atomic. Qed.
+Print Assumptions C07_doubling_failure_publishes_nothing.
+
+Theorem C07_rebuild_order_is_safe :
+  safe_order expand_simple_effects = true.
+Proof. exact expand_simple_order_safe. Qed.
+Print Assumptions C07_rebuild_order_is_safe.
+
+Theorem C07_rebuild_failure_publishes_nothing :
+  forall (k : nat) (b : bool), run expand_simple_effects k false = Some b -> b = false.
+Proof. exact expand_simple_failure_atomic. Qed.
+Print Assumptions C07_rebuild_failure_publishes_nothing.
+
+Theorem C07_unsafe_order_has_a_failing_position :
+  forall (effs : list effect) (p : bool),
+  no_fail_after_publish effs p = false -> exists k : nat, run effs k p = Some true.
+Proof. exact unsafe_has_witness. Qed.
+Print Assumptions C07_unsafe_order_has_a_failing_position.
